@@ -389,6 +389,22 @@ def scn_history(ctx):
     seen_stages = set()
     saved_out = sys.stdout
     sys.stdout = _Null()
+    # the machine as the code sees it: one history in eight runs on a box with 64 MiB of free memory
+    # (os.sysconf), as the simulated os.cpu_count() of the scheduler runs does for cores
+    lowmem = ch.draw(8, "simulated_free_memory") == 7
+    saved_sysconf = os.sysconf
+    if lowmem:
+        ctx.probes["history_with_64MiB_simulated_free_memory"] += 1
+        page = saved_sysconf("SC_PAGE_SIZE")
+
+        def sysconf(name):
+            if name in ("SC_AVPHYS_PAGES", getattr(os, "sysconf_names", {}).get("SC_AVPHYS_PAGES")):
+                return (64 << 20) // page
+            if name in ("SC_PHYS_PAGES", getattr(os, "sysconf_names", {}).get("SC_PHYS_PAGES")):
+                return (256 << 20) // page
+            return saved_sysconf(name)
+
+        os.sysconf = sysconf
     try:
         for opi in range(n_ops):
             st = stages[ch.draw(len(stages), "stage")]
@@ -397,9 +413,18 @@ def scn_history(ctx):
                 a = ch.draw(m, "big_a")
                 n = (8193, 8192, 8191, 16385, 20001, 1, 12000, 65537)[ch.draw(8, "big_n")]
                 stride = (1, 1, 3, 7)[ch.draw(4, "big_stride")]
-                idx = [(a + k * stride) % m for k in range(n)]
+                if st in ("tau_exit_prob", "tau_energy_u", "tau_energy_const") and ch.draw(1000 if tier == "quick" else 600, "giant") == 7:
+                    # a production-size batch (beyond 2**22) in the middle of the session
+                    n = 2**22 + 1 + ch.draw(3, "giant_n")
+                    ctx.probes["batch_gt_2^22"] += 1
+                idx = (a + np.arange(n, dtype=np.int64) * stride) % m
                 if n > 8192:
                     ctx.probes["batch_gt_8192"] += 1
+            elif st == "radio" and lowmem and ch.draw(6, "radio_big") == 5:
+                # more showers than fit into the (simulated) free memory at once
+                k = (4097, 10001, 12345)[ch.draw(3, "radio_big_n")]
+                idx = np.resize(np.roll(np.arange(m), ch.draw(m, "radio_big_roll")), k)
+                ctx.probes["radio_batch_beyond_simulated_free_memory"] += 1
             elif st == "eas" and ch.draw(16, "eas_big") == 15:
                 # more than 100 in-range showers (more than one dask partition), built by
                 # repeating the pool's in-range events
@@ -740,6 +765,7 @@ def scn_history(ctx):
             ctx.log(f"op{opi} {st} n={n} first={int(idx[0])}")
     finally:
         sys.stdout = saved_out
+        os.sysconf = saved_sysconf
     ctx.nontrivial = len(seen_stages) >= 2
     for s in seen_stages:
         ctx.probes["stage_" + s] += 1
